@@ -42,7 +42,7 @@ impl PredecessorTree {
     @fn_start
         let ghost s0 = s;
         let ghost pr = self.pred@;
-    @before `return Some(`
+    @before `return Some(vec![s])`
         proof {
             lemma_init(pr, is_target, s0, Seq::new(pr.len(), |i: int| false), seq![s0]);
             lemma_hit(pr, is_target, s0, 0, s0, Seq::new(pr.len(), |i: int| false), seq![s0]);
@@ -65,7 +65,7 @@ impl PredecessorTree {
         inv(pr, is_target, s0, k, s, visited@, path@),
     decreases
         count_false(visited@),
-    @before #2 `return Some(`
+    @before `return Some(path)`
         proof {
             lemma_hit(pr, is_target, s0, k, s, visited@, path@);
         }
